@@ -1,7 +1,7 @@
 (* Property C15: scope-exit actions (defer blocks, <close> variables) run exactly once, innermost first,
    on every exit path.  Only the property theorems, each closed by [exact] of a lemma of Proofs.v. *)
 From Coq Require Import List.
-From C15 Require Import Gen Model Proofs Discipline.
+From C15 Require Import Gen Model Proofs Discipline NoFuel.
 Import ListNotations.
 
 (* (T) the facts scraped from astdefs.lua / cgenerator.lua / scope.lua are those the model compiler mirrors *)
@@ -75,3 +75,13 @@ Theorem C15_return_value_fixed_before_cleanup : forall lp e rest ds fin x,
   rstmts lp (BCons (Return e) rest) ds fin x = run_defers ds (Ret (length (tr x))) (emit (EvR e) x).
 Proof. exact return_value_fixed_before_cleanup. Qed.
 Print Assumptions C15_return_value_fixed_before_cleanup.
+
+(* the loop bound of the semantics (oracle length + 1) is never exhausted: the equalities above are never
+   about the distinguished out-of-fuel outcome *)
+Theorem C15_ref_never_out_of_fuel : forall p x, fst (ref_sem p x) <> Fuel.
+Proof. exact ref_never_out_of_fuel. Qed.
+Print Assumptions C15_ref_never_out_of_fuel.
+
+Theorem C15_tgt_never_out_of_fuel : forall p x, wf_prog p = true -> fst (tgt_sem (compile p) x) <> Fuel.
+Proof. exact tgt_never_out_of_fuel. Qed.
+Print Assumptions C15_tgt_never_out_of_fuel.
